@@ -117,10 +117,20 @@ Lemma decay_m_noop : forall d,
   decay_m d = d.
 Proof. intros d H; destruct d; try contradiction; reflexivity. Qed.
 
+(* both clauses of the dispatch compute common_type_2_impl on the decayed types *)
+Lemma common_type_m_unfold : forall t1 t2,
+  common_type_m t1 t2 = common_type_2_impl_m (decay_m t1) (decay_m t2).
+Proof.
+  intros t1 t2; unfold common_type_m, is_same_m.
+  destruct (cty_eqb t1 (decay_m t1)) eqn:E1; [|reflexivity].
+  destruct (cty_eqb t2 (decay_m t2)) eqn:E2; [|reflexivity].
+  apply cty_eqb_true in E1, E2. cbn [andb]. rewrite <- E1, <- E2. reflexivity.
+Qed.
+
 Lemma common_type_m_spec : forall t1 t2, wf t1 = true -> wf t2 = true ->
   common_type_m t1 t2 = std_common_type t1 t2.
 Proof.
-  intros t1 t2 H1 H2; unfold common_type_m, std_common_type.
+  intros t1 t2 H1 H2; rewrite common_type_m_unfold; unfold common_type_2_impl_m, std_common_type.
   rewrite !decay_m_spec by assumption.
   set (d1 := std_decay t1); set (d2 := std_decay t2); clearbody d1 d2.
   unfold cond_type.
